@@ -76,6 +76,7 @@ type engineA struct {
 	pauseLoad   int32
 
 	ids      []uint64 // node ids ever used
+	refused  map[uint64]string // members the leader refused as faulty followers (seen while waiting for convergence)
 	moves    int
 	parked   map[uint64]bool
 	faultsOn bool
@@ -354,9 +355,16 @@ func (e *engineA) converged() (bool, string) {
 			continue
 		}
 		info := infos[n.nid]
+		if f, ok := ldrInfo.Followers[n.nid]; ok && f.Err == raft.ErrFaultyFollower || strings.Contains(ldrInfo.Followers[n.nid].ErrMessage, "faulty follower") {
+			if e.refused == nil {
+				e.refused = map[uint64]string{}
+			}
+			e.refused[n.nid] = fmt.Sprintf("faulty follower: leader %d refuses member %d (%s)", ldr.nid, n.nid, ldrInfo.Followers[n.nid].ErrMessage)
+		}
 		if info.Term != ldrInfo.Term || info.Leader != ldr.nid {
-			if f, ok := ldrInfo.Followers[n.nid]; ok && f.Err == raft.ErrFaultyFollower || strings.Contains(ldrInfo.Followers[n.nid].ErrMessage, "faulty follower") {
-				return false, fmt.Sprintf("faulty follower: leader %d refuses member %d (%s)", ldr.nid, n.nid, ldrInfo.Followers[n.nid].ErrMessage)
+			// (the refusal shows in the leader's status only between two attempts)
+			if why, ok := e.refused[n.nid]; ok {
+				return false, why
 			}
 			return false, fmt.Sprintf("member %d (term %d, leader %d) does not follow leader %d of term %d", n.nid, info.Term, info.Leader, ldr.nid, ldrInfo.Term)
 		}
@@ -378,6 +386,9 @@ func (e *engineA) converged() (bool, string) {
 			return false, fmt.Sprintf("dirty read on %d failed", n.nid)
 		}
 		if rr.readLen < want {
+			if why, ok := e.refused[n.nid]; ok {
+				return false, why
+			}
 			return false, fmt.Sprintf("node %d has %d of %d", n.nid, rr.readLen, want)
 		}
 	}
@@ -969,8 +980,13 @@ func (e *engineA) newNodeID(conf *raft.Config) uint64 {
 		}
 		dir := e.cl.dirOf(id)
 		if n != nil {
-			// removed earlier and shut down: come back with a wiped directory
-			dir = fmt.Sprintf("%s.v%d", e.cl.dirOf(id), n.inc+1)
+			// removed earlier and shut down: it comes back with the storage it
+			// had. (Never with an empty one under the same id: nodes that were
+			// removed before it and still campaign hold configurations in which
+			// this id votes - an empty node would grant them its vote although
+			// the old one had acknowledged far newer entries. Raft does not
+			// cover a voter that forgets, and the library cannot tell.)
+			dir = n.dir
 		}
 		if _, err := e.cl.start(id, dir); err != nil {
 			return 0
